@@ -148,10 +148,8 @@ def opParse (c : Json) : R Json := do
 def opSetDefaults (c : Json) : R Json := do
   let wd := (← strList c "wrapper_dests").map chars
   let kw := (← strList c "kw").map chars
-  let t ← bool c "cp_truthy"
-  let reads := setDefaultsReadsFile kw t
-  -- the harness names a file that does not exist: `read_file` raises before anything reaches `_defaults`
-  let passed := if reads then [] else setDefaultsPassed wd kw
+  let reads := setDefaultsReadsFile kw
+  let passed := setDefaultsPassed wd kw
   return Json.mkObj [("passed", Json.arr (((passed.map unchars).toArray.qsort (· < ·)).map Json.str)),
                      ("reads_file", Json.bool reads)]
 
